@@ -261,3 +261,143 @@ Proof.
   rewrite Nat.min_id.
   destruct (vararg a), (kwarg a); reflexivity.
 Qed.
+
+(* ================================================================================================ *)
+(* B. Signature(...) validation: only duplicate names can be rejected                                 *)
+(* ================================================================================================ *)
+Local Open Scope N_scope.
+
+Lemma kind_rank_inj a b : kind_rank a = kind_rank b -> a = b.
+Proof. destruct a, b; cbn; intro H; try reflexivity; discriminate. Qed.
+
+Fixpoint sorted_from (top : kind) (ks : list kind) : Prop :=
+  match ks with
+  | [] => True
+  | k :: r => kind_rank top <= kind_rank k /\ sorted_from k r
+  end.
+
+(* among the positional parameters, no parameter without default after one with a default *)
+Fixpoint dflt_ok (sd : bool) (ks : list kind) (ds : list (option expr)) : Prop :=
+  match ks, ds with
+  | k :: ks', d :: ds' =>
+    if is_positional k then
+      match d with
+      | None => sd = false /\ dflt_ok false ks' ds'
+      | Some _ => dflt_ok true ks' ds'
+      end
+    else dflt_ok sd ks' ds'
+  | _, _ => True
+  end.
+
+Fixpoint dup_free (seen : list text) (names : list text) : bool :=
+  match names with
+  | [] => true
+  | n :: r => negb (mem_text n seen) && dup_free (n :: seen) r
+  end.
+
+Lemma dup_free_spec names : forall seen,
+  dup_free seen names = true <-> (NoDup names /\ forall x, In x names -> ~ In x seen).
+Proof.
+  induction names as [|n r IH]; intros seen; cbn [dup_free].
+  - split; [intros _; split; [constructor | intros x []] | reflexivity].
+  - rewrite andb_true_iff, negb_true_iff, mem_text_false, IH. split.
+    + intros [Hn [Hnd Hdis]]. split.
+      * constructor; auto. intros Hin. apply (Hdis n Hin). left; reflexivity.
+      * intros x [<- | Hx]; auto. intros Hs. apply (Hdis x Hx). right; exact Hs.
+    + intros [Hnd Hdis]. inversion Hnd as [|? ? Hnotin Hnd']; subst. split; [|split].
+      * apply Hdis. left; reflexivity.
+      * exact Hnd'.
+      * intros x Hx [<- | Hs]; [contradiction|]. apply (Hdis x); [right; exact Hx | exact Hs].
+Qed.
+
+Lemma sig_validate_sorted ps : forall top sd seen,
+  sorted_from top (map pkind ps) -> dflt_ok sd (map pkind ps) (map pdefault ps) ->
+  sig_validate top sd seen ps = if dup_free seen (map pname ps) then None else Some DuplicateName.
+Proof.
+  induction ps as [|p r IH]; intros top sd seen Hs Hd; cbn [sig_validate map dup_free].
+  - reflexivity.
+  - cbn [map sorted_from] in Hs. destruct Hs as [Hle Hs].
+    cbn [map dflt_ok] in Hd.
+    replace (kind_rank (pkind p) <? kind_rank top) with false by (symmetry; apply N.ltb_ge; exact Hle).
+    assert (Htop : (if kind_rank top <? kind_rank (pkind p) then pkind p else top) = pkind p).
+    { destruct (kind_rank top <? kind_rank (pkind p)) eqn:E; auto.
+      apply N.ltb_ge in E. apply kind_rank_inj. lia. }
+    rewrite Htop.
+    destruct (is_positional (pkind p)).
+    + destruct (pdefault p).
+      * destruct (mem_text (pname p) seen); cbn [negb andb]; auto.
+      * destruct Hd as [-> Hd]. destruct (mem_text (pname p) seen); cbn [negb andb]; auto.
+    + destruct (mem_text (pname p) seen); cbn [negb andb]; auto.
+Qed.
+
+Lemma sorted_weaken top top' ks :
+  kind_rank top' <= kind_rank top -> sorted_from top ks -> sorted_from top' ks.
+Proof. destruct ks as [|k r]; cbn; auto. intros H [H1 H2]. split; auto. lia. Qed.
+
+Lemma sorted_repeat k n ks : sorted_from k ks -> sorted_from k (repeat k n ++ ks).
+Proof. induction n as [|n IH]; cbn; auto. intros H. split; [lia | auto]. Qed.
+
+Lemma sorted_shape a b (v w : option ast_arg) c :
+  sorted_from POSITIONAL_ONLY
+              (repeat POSITIONAL_ONLY a ++ repeat POSITIONAL_OR_KEYWORD b ++ opt_kind VAR_POSITIONAL v
+               ++ repeat KEYWORD_ONLY c ++ opt_kind VAR_KEYWORD w).
+Proof.
+  apply sorted_repeat. apply sorted_weaken with POSITIONAL_OR_KEYWORD; [cbn; lia|].
+  apply sorted_repeat.
+  assert (H4 : sorted_from KEYWORD_ONLY (repeat KEYWORD_ONLY c ++ opt_kind VAR_KEYWORD w)).
+  { apply sorted_repeat. destruct w; cbn; auto. split; [lia|auto]. }
+  destruct v; cbn [opt_kind app].
+  - cbn [sorted_from]. split; [cbn; lia|]. apply sorted_weaken with KEYWORD_ONLY; [cbn; lia | exact H4].
+  - apply sorted_weaken with KEYWORD_ONLY; [cbn; lia | exact H4].
+Qed.
+
+Lemma dflt_ok_nonpos ks : forall sd ds,
+  Forall (fun k => is_positional k = false) ks -> dflt_ok sd ks ds.
+Proof.
+  induction ks as [|k r IH]; intros sd [|d ds] H; cbn; auto.
+  inversion H as [|? ? Hk Hr]; subst. rewrite Hk. apply IH. exact Hr.
+Qed.
+
+Lemma dflt_ok_somes ks : forall sd (d : list expr) rk rd,
+  Forall (fun k => is_positional k = true) ks -> length ks = length d ->
+  Forall (fun k => is_positional k = false) rk ->
+  dflt_ok sd (ks ++ rk) (map Some d ++ rd).
+Proof.
+  induction ks as [|k r IH]; intros sd [|x d] rk rd Hp Hl Hn; cbn in Hl; try discriminate.
+  - cbn. apply dflt_ok_nonpos. exact Hn.
+  - inversion Hp as [|? ? Hk Hr]; subst. cbn. rewrite Hk. apply IH; auto.
+Qed.
+
+Lemma dflt_ok_aligned x : forall ks (d : list expr) rk rd,
+  Forall (fun k => is_positional k = true) ks -> length ks = (x + length d)%nat ->
+  Forall (fun k => is_positional k = false) rk ->
+  dflt_ok false (ks ++ rk) ((repeat None x ++ map Some d) ++ rd).
+Proof.
+  induction x as [|x IH]; intros ks d rk rd Hp Hl Hn.
+  - cbn [repeat app]. apply dflt_ok_somes; auto.
+  - destruct ks as [|k r]; cbn in Hl; [discriminate|].
+    inversion Hp as [|? ? Hk Hr]; subst. cbn. rewrite Hk. split; auto. apply IH; auto.
+Qed.
+
+Lemma expected_params_valid ann a :
+  wf_args a ->
+  sig_validate POSITIONAL_ONLY false [] (expected_params ann a) =
+  if dup_free [] (map a_name (all_args a)) then None else Some DuplicateName.
+Proof.
+  intros Hwf. rewrite sig_validate_sorted.
+  - rewrite expected_params_names by exact Hwf. reflexivity.
+  - rewrite expected_params_kinds by exact Hwf. apply sorted_shape.
+  - rewrite expected_params_kinds, expected_params_defaults by exact Hwf.
+    destruct Hwf as [Hd Hk].
+    rewrite (app_assoc (repeat POSITIONAL_ONLY _)).
+    unfold aligned_defaults.
+    apply dflt_ok_aligned.
+    + apply Forall_app; split; apply Forall_forall; intros k Hk'; apply repeat_spec in Hk'; subst; reflexivity.
+    + rewrite app_length, !repeat_length. lia.
+    + apply Forall_app; split; [destruct (vararg a); cbn; auto|].
+      apply Forall_app; split; [|destruct (kwarg a); cbn; auto].
+      apply Forall_forall; intros k Hk'; apply repeat_spec in Hk'; subst; reflexivity.
+Qed.
+
+Lemma dup_free_nil names : dup_free [] names = true <-> NoDup names.
+Proof. rewrite dup_free_spec. split; [intros [H _]; exact H | intros H; split; [exact H | intros x _ []]]. Qed.
